@@ -65,9 +65,9 @@ const batch = 1000
 
 func plan(seed int64, tier string) []vrt.Case {
 	var cs []vrt.Case
-	ab, sab, nLong, timeout := 14, 9, 150, 240
+	ab, sab, nLong, nRebuild, timeout := 14, 9, 150, 320, 240
 	if tier == "thorough" {
-		ab, sab, nLong, timeout = 18, 12, 5800, 600
+		ab, sab, nLong, nRebuild, timeout = 18, 12, 5800, 8000, 600
 	}
 	add := func(id string, p params) {
 		p.Seed = seed
@@ -75,6 +75,9 @@ func plan(seed int64, tier string) []vrt.Case {
 	}
 	for _, ch := range lzwork.LongChunks(nLong) {
 		add(fmt.Sprintf("long-%d-%d", ch[0], ch[1]), params{Kind: "long", Lo: ch[0], Hi: ch[1], N: nLong})
+	}
+	for lo := 0; lo < nRebuild; lo += 10 {
+		add(fmt.Sprintf("rebuild-%d", lo), params{Kind: "rebuild", Lo: lo, Hi: min(lo+10, nRebuild), N: nRebuild})
 	}
 	add("golden", params{Kind: "golden"})
 	rangeID := func(r lzwork.Range) string {
@@ -324,7 +327,11 @@ func (c *ctx) refToLib(what string, in, stream []byte, crc bool, src lzwork.Sour
 }
 
 func (c *ctx) both(what string, in []byte, j uint64, stats bool, parts []int) {
-	for mi, crc := range []bool{true, false} {
+	c.modes(what, in, j, stats, parts, []bool{true, false})
+}
+
+func (c *ctx) modes(what string, in []byte, j uint64, stats bool, parts []int, modes []bool) {
+	for mi, crc := range modes {
 		lib := c.libToRef(what, in, crc, parts, stats && mi == 0)
 		var canon []byte
 		if crc {
@@ -373,6 +380,18 @@ func run(cs vrt.Case) vrt.Obs {
 			c.both(sp.String(), in, uint64(i), true, parts)
 		}
 		o.Sample = map[string]any{"kind": "long", "inputs": names, "directions": "library->reference (header + decode), reference->library (Read + Close)", "header_modes": "b2 and raw"}
+	case "rebuild":
+		// volume over the moment the adaptive tree is rebuilt (lzwork.RebuildSpecs), one header mode per input
+		specs := lzwork.RebuildSpecs(p.Seed, p.N)
+		var names []string
+		for i := p.Lo; i < p.Hi && i < len(specs); i++ {
+			in := specs[i].Bytes()
+			names = append(names, specs[i].String())
+			o.Count("inputs_rebuild_family", 1)
+			o.Count("input_bytes", int64(len(in)))
+			c.modes(specs[i].String(), in, uint64(i), true, nil, []bool{i%2 == 0})
+		}
+		o.Sample = map[string]any{"kind": "rebuild", "inputs": names}
 	case "golden":
 		// streams made by the original tool chain (not by the reference encoder): the library must read them
 		var names []string
